@@ -54,9 +54,17 @@ for name in ("extend", "__iadd__"):
              returns=("param:self" if name == "__iadd__" else "none"), modifies=["self"], ensures=["best_ok(self)"],
              loops={1: {"invariant": "best_ok(self)"}})
 
+def _slice_index(eng, loc):
+    i = loc.get("index")
+    return getattr(i, "t", None) == "slice"
+
+
 for name, inst in (("copy", {"self": R}), ("to_boolean", {"self": R}), ("to_spin", {"self": R}),
                    ("__add__", {"self": R, "other": "resiter"}), ("__mul__", {"self": R, "other": "int"}),
                    ("__getitem__", {"self": R, "index": "slice"})):
     contract(M + "AnnealResults." + name, props=["C13"], instances=[inst],
              requires=["best_ok(self)"], returns="fresh:results",
-             ensures=["best_ok(result)", "typeis(result, 'AnnealResults')"])
+             ensures=["best_ok(result)", "typeis(result, 'AnnealResults')"],
+             # res[i] with an integer index is not summarised by this contract: the body is executed at the call site
+             # (list.__getitem__ of the list specification: IndexError or an element of the record)
+             call_when=(_slice_index if name == "__getitem__" else None))
